@@ -13,6 +13,7 @@ import Driver.FrontMode
 import Driver.StoreMode
 import Driver.QuoteMode
 import Driver.RngMode
+import Driver.ItpMode
 /-! `osmt-model <mode> <file>`: line-protocol driver around the executable models and kernels. -/
 def main (args : List String) : IO UInt32 := do
   match args with
@@ -82,6 +83,10 @@ def main (args : List String) : IO UInt32 := do
   | ["rng", path] =>
     let txt ← IO.FS.readFile path
     for l in Driver.runRng (txt.splitOn "\n") do IO.println l
+    return 0
+  | ["itp", path] =>
+    let txt ← IO.FS.readFile path
+    for l in Driver.runItp (txt.splitOn "\n") do IO.println l
     return 0
   | ["fk", path] =>
     let txt ← IO.FS.readFile path
